@@ -23,3 +23,8 @@ pub mod c05 {
     use super::*;
     include!("c05.rs");
 }
+pub mod c06 {
+    #[allow(unused_imports)]
+    use super::*;
+    include!("c06.rs");
+}
